@@ -357,21 +357,23 @@ class Machine:
                 res = lst(list_items(l, "append argument"), res)
             return res
 
-        @B("map", 2, 2)
-        def _map(m, f, l):
+        @B("map", 2, None)
+        def _map(m, f, *ls):
             m.check_proc(f)
             out = []
-            while isinstance(l, Pair):
-                out.append(m.apply(f, [l.car])); l = l.cdr
-            if l is not NIL:
+            cur = list(ls)
+            while all(isinstance(l, Pair) for l in cur):
+                out.append(m.apply(f, [l.car for l in cur])); cur = [l.cdr for l in cur]
+            if len(cur) == 1 and cur[0] is not NIL:
                 raise SErr("type", "map on improper list")
             return lst(out)
 
-        @B("for-each", 2, 2)
-        def _for_each(m, f, l):
+        @B("for-each", 2, None)
+        def _for_each(m, f, *ls):
             m.check_proc(f)
-            while isinstance(l, Pair):
-                m.apply(f, [l.car]); l = l.cdr
+            cur = list(ls)
+            while all(isinstance(l, Pair) for l in cur):
+                m.apply(f, [l.car for l in cur]); cur = [l.cdr for l in cur]
             return VOID
 
         @B("fold-left", 3, 3)
